@@ -306,6 +306,7 @@ func init() {
 				s := s
 				us = append(us, engine.Unit{Name: s.Name, Run: func(r *engine.Rec) { explore(r, s) }})
 			}
+			us = append(us, twoFanUnits(tier)...)
 			us = append(us, engine.Unit{Name: "invalid-fan-out", Run: invalid})
 			return us
 		},
